@@ -6,6 +6,8 @@ void c12_register_quad(std::vector<vf::Target>&);
 void c12_register_tria(std::vector<vf::Target>&);
 void c12_register_hexa(std::vector<vf::Target>&);
 void c12_register_tetra(std::vector<vf::Target>&);
+void c12_register_split_quad(std::vector<vf::Target>&); void c12_register_split_tria(std::vector<vf::Target>&);
+void c12_register_split_hexa(std::vector<vf::Target>&); void c12_register_split_tetra(std::vector<vf::Target>&);
 
 // PartiIterative seeds its random generator with time(nullptr): the executable's own time() (which takes precedence over
 // libc's) returns the tape-chosen value while c12_fake_time != 0, so that a case determines its partition
@@ -22,6 +24,6 @@ int main(int argc, char** argv)
 {
   FEAT::Runtime::ScopeGuard guard(argc, argv);
   std::vector<vf::Target> tg;
-  c12_register_quad(tg); c12_register_tria(tg); c12_register_hexa(tg); c12_register_tetra(tg);
+  c12_register_quad(tg); c12_register_tria(tg); c12_register_hexa(tg); c12_register_tetra(tg); c12_register_split_quad(tg); c12_register_split_tria(tg); c12_register_split_hexa(tg); c12_register_split_tetra(tg);
   return vf::main_impl(argc, argv, tg);
 }
